@@ -192,8 +192,70 @@ pub fn after_line(a: &[u8], b: &[u8], ecl: Option<usize>) -> String {
     }
 }
 
+/// `reuse <hex A> <hex B> <svg ops> => s:<svg of B by a builder that rendered A first>:<svg of B by a fresh builder> p:<same for the pixmap>`
+/// — ONE renderer object used for two different QR codes
+pub fn reuse_line(a: &[u8], b: &[u8], ops: &[crate::svgops::Op]) -> String {
+    use fast_qr::convert::image::ImageBuilder;
+    use fast_qr::convert::svg::SvgBuilder;
+    let head = format!("reuse {} {} {} => ", hex(a), hex(b), crate::svgops::toks(ops));
+    let o = Opts::default();
+    let (qa, qb) = match (build(a, o), build(b, o)) {
+        (Outcome::Ok(x), Outcome::Ok(y)) => (*x, *y),
+        _ => return format!("{}nobuild", head),
+    };
+    let ops2 = ops.to_vec();
+    let r = std::panic::catch_unwind(move || {
+        let mut sb = SvgBuilder::default();
+        crate::svgops::apply(&mut sb, &ops2);
+        let _ = sb.to_str(&qa);
+        let s1 = sb.to_str(&qb);
+        let mut fresh = SvgBuilder::default();
+        crate::svgops::apply(&mut fresh, &ops2);
+        let s2 = fresh.to_str(&qb);
+        let mut ib = ImageBuilder::default();
+        crate::svgops::apply(&mut ib, &ops2);
+        ib.fit_width(((qb.size + 8) * 3) as u32);
+        let _ = ib.to_pixmap(&qa);
+        let p1 = ib.to_pixmap(&qb);
+        let mut ifresh = ImageBuilder::default();
+        crate::svgops::apply(&mut ifresh, &ops2);
+        ifresh.fit_width(((qb.size + 8) * 3) as u32);
+        let p2 = ifresh.to_pixmap(&qb);
+        let d = |pm: &resvg::tiny_skia::Pixmap| {
+            let mut h: u64 = 0xcbf2_9ce4_8422_2325;
+            for b in pm.data() {
+                h ^= u64::from(*b);
+                h = h.wrapping_mul(0x0000_0100_0000_01b3);
+            }
+            h ^ (u64::from(pm.width()) << 32)
+        };
+        format!("s:{:016x}:{:016x} p:{:016x}:{:016x}", fnv(&s1), fnv(&s2), d(&p1), d(&p2))
+    });
+    match r {
+        Ok(s) => format!("{}{}", head, s),
+        Err(e) => format!("{}trap {}", head, panic_msg(e)),
+    }
+}
+
 pub fn gen(out: &mut crate::gen::Out, rng: &mut Rng, thorough: bool) {
     let caps = crate::gen::caps();
+    // one renderer object, two different QR codes (same size and different size)
+    for k in 0..(if thorough { 200 } else { 24 }) {
+        let a = crate::gen::structured(rng);
+        let mut b = if k % 2 == 0 { a.clone() } else { crate::gen::structured(rng) };
+        if k % 2 == 0 && !b.is_empty() {
+            let p = b.len() - 1;
+            b[p] = if b[p] == b'7' { b'3' } else { b'7' };
+        }
+        if a.len() > 300 || b.len() > 300 {
+            continue;
+        }
+        let mut ops = vec![crate::svgops::Op::Margin(rng.below(6)), crate::svgops::Op::Shape(rng.below(6))];
+        if rng.chance(1, 2) {
+            ops.push(crate::svgops::Op::ShapeColor(rng.below(6), crate::svgops::rand_color(rng)));
+        }
+        out.job(move || reuse_line(&a, &b, &ops));
+    }
     // batches of near-identical payloads built one after the other
     for _ in 0..(if thorough { 600 } else { 60 }) {
         let mut a = crate::gen::structured(rng);
